@@ -26,7 +26,7 @@ def run(tier):
     c = Check("C06", tier)
     exe = driver("asan")
     # 17/18: growing bit sets (vector<bool>, DynamicBitset; 18 with unsetFlag), 19: key-value container (std::map)
-    cfgs, beh = model_behaviours(c, tier, cfgsel=[4, 6, 9, 10, 11, 12, 17, 19] if tier == "quick" else [4, 6, 9, 10, 11, 12, 17, 18, 19])
+    cfgs, beh = model_behaviours(c, tier, cfgsel=[4, 6, 9, 10, 11, 12, 17, 18, 19])
     script = os.path.join(c.wd, "replay.ndjson")
     n = behaviours_script(cfgs, beh, script)
     c.notes.append("R: %d distinct (configuration, argv) behaviours with container destinations replayed" % n)
@@ -46,6 +46,26 @@ def run(tier):
             for kind, words in arggen.mutations(g, cfg, line):
                 if kind in ("too_many_values", "too_few_values", "array_overflow", "bad_value", "disjoint_intersect", "dup_key"):
                     acts.append(eval_action(words, tag={"k": "mut", "m": kind}))
+        blocks.append((cfg, acts))
+    # formatted elements and long value lists (per-position format tables are sized in steps: 8..12 and 25 values)
+    for _ in range(30 if tier == "quick" else 800):
+        cfg = g.cfg(nargs=g.r.randint(1, 3), kinds=["vecstr", "vecstr", "flag"], constraints=False, allow_pos=False)
+        conts = [i + 1 for i, a in enumerate(cfg["args"]) if a["kind"] == "vecstr"]
+        if not conts:
+            continue
+        for i in conts:
+            a = cfg["args"][i - 1]
+            a["formats"] = [g.r.choice(["upper", "lower"])]; a["checks"] = []; a["card"] = {"t": "dflt", "a": 0, "b": 0}; a["mand"] = False
+            a["multi"] = g.r.random() < 0.5; a["uniq"] = "no"
+        acts = []
+        for n in (8, 9, 10, 11, 12, 25):
+            i = g.r.choice(conts)
+            vals = [g.good_value(cfg["args"][i - 1]) for _ in range(n)]
+            if any(v is None for v in vals):
+                continue
+            line = [[i, vals]]
+            for variant in (line, cuts(g, cfg, line)):
+                acts.append(eval_action(g.spell_line(cfg, variant), tag={"k": "line", "line": line_json(variant)}))
         blocks.append((cfg, acts))
     script2 = os.path.join(c.wd, "random.ndjson")
     write_cases(script2, blocks)
